@@ -512,6 +512,30 @@ def main(chk):
         if n in KEYWORDS and (o["var"] or o["prop"]):
             failing.append(("C17:reserved", "reserved word `%s` is accepted as a name" % n, {"harness": "litval", "name": n, "got": o}))
 
+    # names are identified by their WHOLE text: two long names sharing a long prefix (or suffix) are two names
+    pair_progs, pair_meta = [], []
+    for L in (1, 7, 15, 16, 31, 32, 33, 63, 64, 65, 127, 128, 255, 256, 1000):
+        for mk in (lambda p, t: p + t, lambda p, t: t + p, lambda p, t: "_" + p + t, lambda p, t: p + t + "?"):
+            body = ("ab0_"[i % 4] for i in range(L))
+            pfx = "k" + "".join(body)
+            n1, n2 = mk(pfx, "x"), mk(pfx, "y")
+            s1, s2 = (n1, n2) if not n1.endswith("?") else ("'" + n1, "'" + n2)
+            prog = ("v%s := 1\nv%s := 2\no := {%s: 3, %s: 4}\n[v%s, v%s, o.keys(private?: true).len, o['%s], o['%s], '%s == '%s, %%{'%s: 1, '%s: 2}.len]"
+                    % (n1.rstrip("?"), n2.rstrip("?"), s1, s2, n1.rstrip("?"), n2.rstrip("?"), n1, n2, n1, n2, n1, n2))
+            pair_progs.append(prog)
+            pair_meta.append((n1, n2))
+    pouts = harness("eval", [{"src": p_} for p_ in pair_progs], shards=NCPU)
+    for prog, (n1, n2), o in zip(pair_progs, pair_meta, pouts):
+        hist["name-pair"] = hist.get("name-pair", 0) + 1
+        chk.count(("name-pair", n1, n2), True)
+        if not (o["kind"] == "value" and o.get("repr") == "[1, 2, 2, 3, 4, false, 2]"):
+            failing.append(("C17:name-identity", "the names `%s…%s` and `…%s` (%d characters, differing in one) are not two different names: "
+                            "variables, properties, symbols, map keys give %s, expected [1, 2, 2, 3, 4, false, 2]" % (
+                                n1[:12], n1[-3:], n2[-3:], len(n1), o.get("repr") or (o.get("errk"), o.get("errmsg"))),
+                            {"harness": "eval", "program": prog, "got": {k: o.get(k) for k in ("kind", "repr", "errk", "errmsg")},
+                             "want": "[1, 2, 2, 3, 4, false, 2]"}))
+            break
+
     # 2. correspondence with the Coq models (vm_compute inside Coq)
     lrows = ["(%d, %s, %s)" % (i, coq_spelling(src), go2coq(o["r"])) for i, ((_, src, _, _), o) in enumerate(zip(lits, louts))]
     nrows = ["(%d, %s, %s, %s, %s, %s)" % (i, coq_spelling(n), cb(o["var"]), cb(o["prop"]), cb(o["sym"]), cb(o["tok"]))
@@ -559,7 +583,8 @@ def main(chk):
                        "(1.797...e308, 4.9e-324, 2^-1075 in full, 2^1024-2^970 in full), constructed half-way cases (2M+1)*2^(E-1) "
                        "spelled exactly and one digit above/below, plain and in exponent form, normal and subnormal; strings: every `\\c` "
                        "for printable c in four contexts, \\x \\u \\U octal boundary cases, UTF-8 text; names: every keyword-prefixed / "
-                       "keyword-suffixed name up to length 8 over a small alphabet, with ! and ?, private names. Seeded random tail: random "
+                       "keyword-suffixed name up to length 8 over a small alphabet, with ! and ?, private names; pairs of names of 2..1001 characters that "
+                       "differ in their last / first character only (as variables, properties, symbols, map keys). Seeded random tail: random "
                        "spellings of every form, 17..20 significant digits, escape sequences, names from the documented pattern. "
                        "distinct by spelling; non-trivial: more than one character.")
     step = max(1, len(lits) // 9)
